@@ -21,6 +21,14 @@ THEOREMS = [
     "Wild.C15.glob_caret_in_bracket_witness",
     "Wild.C15.glob_eq_fnmatch_full_false",
     "Wild.C15.rule_new_rejects_valid_witness",
+    "Wild.C15.matchesFrom_sound",
+    "Wild.C15.parse_agree",
+    "Wild.C15.glob_accepts_and_agrees",
+    "Wild.C15.glob_eq_fnmatch_chars",
+    "Wild.C15.glob_eq_fnmatch_partial",
+    "Wild.C15.glob_eq_fnmatch_ascii",
+    "Wild.C15.glob_eq_fnmatch_star_question",
+    "Wild.C15.section_rule_eq_fnmatch",
 ]
 LEVEL = "proof"
 NEEDS_WILD = True
